@@ -137,6 +137,14 @@ def generic_decision(cond):
     if not isinstance(why, tuple) or not why:
         return None, None
     tag = why[0]
+    if tag == "not" and len(why) == 2 and is_unknown(why[1]):
+        o, z = generic_decision(why[1])
+        return (None if o is None else (not o)), z
+    if tag in ("and", "or") and len(why) == 3:
+        outs = [generic_decision(x)[0] if is_unknown(x) else bool(x) for x in why[1:]]
+        if any(o is None for o in outs):
+            return None, None
+        return (all(outs) if tag == "and" else any(outs)), None
     if tag == "truth":
         v = why[1]
         return True, _atoms_if_plain([v])
